@@ -7,52 +7,54 @@ list (`soloPass`), the fact that the model accepts it, and what it does to a clo
 -/
 namespace Tally.Registry
 
+variable {san : Nat → Nat}
+
 /-! ## the individual steps of a pass, as equations -/
 section micro
 variable {s : State} {t : Nat}
 
 theorem step_passIter {v : List Nat} {k sid : Nat} {x : ScopeS} (hpc : pcOf s t = .passIter v)
     (hk : k ∉ v) (hl : lookup s k = some sid) (hx : scopeOf s sid = some x) :
-    step s (.step t k) = some (setPc s t (.passSwap (k :: v) k sid x.closed)) := by
+    step san s (.step t k) = some (setPc s t (.passSwap (k :: v) k sid x.closed)) := by
   simp [step, hpc, hk, hl, hx]
 
 theorem step_passSwap {v : List Nat} {k sid c' : Nat} {c : Bool} {x : ScopeS}
     (hpc : pcOf s t = .passSwap v k sid c) (hx : scopeOf s sid = some x) :
-    step s (.step t c') = some (setPc (setScope s sid { x with cell := [] }) t
+    step san s (.step t c') = some (setPc (setScope s sid { x with cell := [] }) t
       (if x.cell.isEmpty then .passAfter v k sid c else .passDeliver v k sid c x.cell)) := by
   simp [step, hpc, hx]
 
 theorem step_passDeliver {v : List Nat} {k sid c' : Nat} {c : Bool} {pd : List Token}
     (hpc : pcOf s t = .passDeliver v k sid c pd) :
-    step s (.step t c') = some (setPc { s with delivered := pd ++ s.delivered } t (.passAfter v k sid c)) := by
+    step san s (.step t c') = some (setPc { s with delivered := pd ++ s.delivered } t (.passAfter v k sid c)) := by
   simp [step, hpc]
 
 theorem step_passAfter_live {v : List Nat} {k sid c' : Nat} (hpc : pcOf s t = .passAfter v k sid false) :
-    step s (.step t c') = some (setPc s t (.passIter v)) := by
+    step san s (.step t c') = some (setPc s t (.passIter v)) := by
   simp [step, hpc]
 
 theorem step_passAfter_closed {v : List Nat} {k sid c' : Nat} (hpc : pcOf s t = .passAfter v k sid true) :
-    step s (.step t c') = some (setPc (delReader s t) t (.passUnlocked v k sid)) := by
+    step san s (.step t c') = some (setPc (delReader s t) t (.passUnlocked v k sid)) := by
   simp [step, hpc]
 
 theorem step_passUnlocked {v : List Nat} {k sid c' : Nat} (hpc : pcOf s t = .passUnlocked v k sid)
     (hr : s.readers = []) :
-    step s (.step t c') = some (setPc (deleteIfSame s k sid) t (.passRelock v k sid)) := by
+    step san s (.step t c') = some (setPc (deleteIfSame s k sid) t (.passRelock v k sid)) := by
   simp [step, hpc, hr]
 
 theorem step_passRelock {v : List Nat} {k sid c' : Nat} (hpc : pcOf s t = .passRelock v k sid) :
-    step s (.step t c') = some (setPc (addReader s t) t (.passClear v k sid)) := by
+    step san s (.step t c') = some (setPc (addReader s t) t (.passClear v k sid)) := by
   simp [step, hpc]
 
 theorem step_passClear {v : List Nat} {k sid c' : Nat} (hpc : pcOf s t = .passClear v k sid)
     (hv : visiting s sid = false) :
-    step s (.step t c') = some (setPc (clearScope s sid) t (.passIter v)) := by
+    step san s (.step t c') = some (setPc (clearScope s sid) t (.passIter v)) := by
   simp [step, hpc, hv]
 
 end micro
 
-theorem run_cons_of_step {s s1 : State} {e : Ev} {es : List Ev} (h : step s e = some s1) :
-    run s (e :: es) = run s1 es := by
+theorem run_cons_of_step {s s1 : State} {e : Ev} {es : List Ev} (h : step san s e = some s1) :
+    run san s (e :: es) = run san s1 es := by
   simp [run, h]
 
 
@@ -96,12 +98,12 @@ def visitEvs (s : State) (t k : Nat) : List Ev :=
 
 theorem visit_phaseA {s : State} {t k sid : Nat} {v : List Nat} {x : ScopeS} (hs : Solo s t v)
     (hk : k ∉ v) (hl : lookup s k = some sid) (hx : scopeOf s sid = some x) :
-    ∃ sA, run s (visitEvsA t k x) = some sA ∧ pcOf sA t = .passAfter (k :: v) k sid x.closed
+    ∃ sA, run san s (visitEvsA t k x) = some sA ∧ pcOf sA t = .passAfter (k :: v) k sid x.closed
       ∧ sA.readers = [t] ∧ (∀ t', t' ≠ t → pcOf sA t' = .idle)
       ∧ sA.scopes = s.scopes.set sid { x with cell := [] } ∧ sA.reg = s.reg
       ∧ sA.delivered = x.cell ++ s.delivered := by
-  have h1 := step_passIter hs.pc hk hl hx
-  have h2 := step_passSwap (s := setPc s t (.passSwap (k :: v) k sid x.closed)) (t := t) (c' := 0)
+  have h1 := step_passIter (san := san) hs.pc hk hl hx
+  have h2 := step_passSwap (san := san) (s := setPc s t (.passSwap (k :: v) k sid x.closed)) (t := t) (c' := 0)
     (pcOf_setPc_self ..) (x := x) hx
   unfold visitEvsA
   by_cases hc : x.cell.isEmpty = true
@@ -112,14 +114,14 @@ theorem visit_phaseA {s : State} {t k sid : Nat} {v : List Nat} {x : ScopeS} (hs
     · rw [List.append_nil, run_cons_of_step h1, run_cons_of_step h2]; rfl
     · rw [List.isEmpty_iff.mp hc]; rfl
   · rw [if_neg hc] at h2 ⊢
-    have h3 := step_passDeliver (s := setPc (setScope (setPc s t (.passSwap (k :: v) k sid x.closed)) sid
+    have h3 := step_passDeliver (san := san) (s := setPc (setScope (setPc s t (.passSwap (k :: v) k sid x.closed)) sid
       { x with cell := [] }) t (.passDeliver (k :: v) k sid x.closed x.cell)) (t := t) (c' := 0)
       (pcOf_setPc_self ..)
     refine ⟨setPc { setPc (setScope (setPc s t (.passSwap (k :: v) k sid x.closed)) sid
         { x with cell := [] }) t (.passDeliver (k :: v) k sid x.closed x.cell) with
         delivered := x.cell ++ s.delivered } t (.passAfter (k :: v) k sid x.closed),
       ?_, pcOf_setPc_self .., hs.readers, ?_, rfl, rfl, rfl⟩
-    · show run s [.step t k, .step t 0, .step t 0] = _
+    · show run san s [.step t k, .step t 0, .step t 0] = _
       rw [run_cons_of_step h1, run_cons_of_step h2, run_cons_of_step h3]; rfl
     · exact others_setPc (s0 := { setPc (setScope (setPc s t (.passSwap (k :: v) k sid x.closed)) sid
         { x with cell := [] }) t (.passDeliver (k :: v) k sid x.closed x.cell) with delivered := _ })
@@ -128,24 +130,24 @@ theorem visit_phaseA {s : State} {t k sid : Nat} {v : List Nat} {x : ScopeS} (hs
 theorem visit_phaseB_live {sA : State} {t k sid : Nat} {v : List Nat}
     (hpc : pcOf sA t = .passAfter v k sid false) (hr : sA.readers = [t])
     (ho : ∀ t', t' ≠ t → pcOf sA t' = .idle) :
-    ∃ s', run sA [.step t 0] = some s' ∧ Solo s' t v ∧ s'.scopes = sA.scopes ∧ s'.reg = sA.reg
+    ∃ s', run san sA [.step t 0] = some s' ∧ Solo s' t v ∧ s'.scopes = sA.scopes ∧ s'.reg = sA.reg
       ∧ s'.delivered = sA.delivered :=
-  ⟨_, by rw [run_cons_of_step (step_passAfter_live hpc)]; rfl,
+  ⟨_, by rw [run_cons_of_step (step_passAfter_live (san := san) hpc)]; rfl,
     ⟨pcOf_setPc_self .., hr, others_setPc ho⟩, rfl, rfl, rfl⟩
 
-theorem visit_phaseB_closed {sA : State} {t k sid : Nat} {v : List Nat} {y : ScopeS} (h : Inv sA)
+theorem visit_phaseB_closed {sA : State} {t k sid : Nat} {v : List Nat} {y : ScopeS} (h : Inv san sA)
     (hpc : pcOf sA t = .passAfter v k sid true) (hr : sA.readers = [t])
     (ho : ∀ t', t' ≠ t → pcOf sA t' = .idle) (hy : scopeOf sA sid = some y) :
-    ∃ s', run sA [.step t 0, .step t 0, .step t 0, .step t 0] = some s' ∧ Solo s' t v
+    ∃ s', run san sA [.step t 0, .step t 0, .step t 0, .step t 0] = some s' ∧ Solo s' t v
       ∧ s'.scopes = sA.scopes.set sid { y with cleared := true, cell := [] }
       ∧ s'.reg = sA.reg.filter (fun (k', w) => !(k' == k && w == sid))
       ∧ s'.delivered = sA.delivered := by
-  have h1 := step_passAfter_closed (c' := 0) hpc
+  have h1 := step_passAfter_closed (san := san) (c' := 0) hpc
   have i1 := inv_step h h1
-  have h2 := step_passUnlocked (s := setPc (delReader sA t) t (.passUnlocked v k sid)) (t := t) (c' := 0)
+  have h2 := step_passUnlocked (san := san) (s := setPc (delReader sA t) t (.passUnlocked v k sid)) (t := t) (c' := 0)
     (pcOf_setPc_self ..) (by simp [hr])
   have i2 := inv_step i1 h2
-  have h3 := step_passRelock (s := setPc (deleteIfSame (setPc (delReader sA t) t (.passUnlocked v k sid)) k sid) t
+  have h3 := step_passRelock (san := san) (s := setPc (deleteIfSame (setPc (delReader sA t) t (.passUnlocked v k sid)) k sid) t
     (.passRelock v k sid)) (t := t) (c' := 0) (pcOf_setPc_self ..)
   have i3 := inv_step i2 h3
   have hnv : visiting (setPc (addReader (setPc (deleteIfSame (setPc (delReader sA t) t (.passUnlocked v k sid)) k sid) t
@@ -153,7 +155,7 @@ theorem visit_phaseB_closed {sA : State} {t k sid : Nat} {v : List Nat} {y : Sco
     refine not_visiting_of i3.nodup (t := t) (by rw [pcOf_setPc_self]; rfl) ?_
     exact others_setPc (s0 := addReader _ t) (others_setPc (s0 := deleteIfSame _ k sid)
       (others_setPc (s0 := delReader sA t) ho))
-  have h4 := step_passClear (c' := 0) (pcOf_setPc_self ..) hnv
+  have h4 := step_passClear (san := san) (c' := 0) (pcOf_setPc_self ..) hnv
   refine ⟨_, by rw [run_cons_of_step h1, run_cons_of_step h2, run_cons_of_step h3, run_cons_of_step h4]; rfl,
     ⟨pcOf_setPc_self .., ?_, ?_⟩, ?_, ?_, ?_⟩
   · simp [hr]
@@ -175,9 +177,9 @@ def visitedScope (x : ScopeS) : ScopeS :=
 def regAfterVisit (reg : List (Nat × Nat)) (k sid : Nat) (x : ScopeS) : List (Nat × Nat) :=
   if x.closed then reg.filter (fun (k', w) => !(k' == k && w == sid)) else reg
 
-theorem visit_run {s : State} {t k sid : Nat} {v : List Nat} {x : ScopeS} (h : Inv s) (hs : Solo s t v)
+theorem visit_run {s : State} {t k sid : Nat} {v : List Nat} {x : ScopeS} (h : Inv san s) (hs : Solo s t v)
     (hk : k ∉ v) (hl : lookup s k = some sid) (hx : scopeOf s sid = some x) :
-    ∃ s', run s (visitEvs s t k) = some s' ∧ Solo s' t (k :: v)
+    ∃ s', run san s (visitEvs s t k) = some s' ∧ Solo s' t (k :: v)
       ∧ s'.scopes = s.scopes.set sid (visitedScope x) ∧ s'.reg = regAfterVisit s.reg k sid x
       ∧ s'.delivered = x.cell ++ s.delivered := by
   obtain ⟨sA, hA, hpcA, hrA, hoA, hscA, hregA, hdA⟩ := visit_phaseA hs hk hl hx
@@ -235,30 +237,59 @@ theorem mem_regAfter {reg : List (Nat × Nat)} {k sid : Nat} {x : ScopeS} {e : N
   · exact h
 
 /-- the events of the rest of a solo pass over the keys `ks` (computed along the run), ending the pass -/
-def passEvs (t : Nat) : State → List Nat → List Ev
+def passEvs (san : Nat → Nat) (t : Nat) : State → List Nat → List Ev
   | _, [] => [.passEndHint t]
-  | s, k :: ks => visitEvs s t k ++ passEvs t ((run s (visitEvs s t k)).getD s) ks
+  | s, k :: ks => visitEvs s t k ++ passEvs san t ((run san s (visitEvs s t k)).getD s) ks
 
 /-- the target scope has been collected -/
 def Collected (s : State) (sid0 : Nat) (x0 : ScopeS) : Prop :=
   (∃ x', scopeOf s sid0 = some x' ∧ x'.cleared = true) ∧ (∀ k', (k', sid0) ∉ s.reg)
     ∧ (∀ tok ∈ x0.cell, tok ∈ s.delivered)
 
-theorem pass_run {t k0 sid0 : Nat} {x0 : ScopeS} (hc0 : x0.closed = true) :
-    ∀ (ks : List Nat) (s : State) (v : List Nat), Inv s → Solo s t v → ks.Nodup → (∀ k ∈ ks, k ∉ v) →
+/-- the target scope has been visited (reported and cleared) by the pass; it may still be registered under keys
+the pass has not visited yet -/
+def Reported (s : State) (sid0 : Nat) (x0 : ScopeS) : Prop :=
+  (∃ x', scopeOf s sid0 = some x' ∧ x'.cleared = true ∧ x'.closed = true)
+    ∧ (∀ tok ∈ x0.cell, tok ∈ s.delivered)
+
+theorem lookup_of_mem_nodup {reg : List (Nat × Nat)} (hnd : (reg.map (·.1)).Nodup) {k v : Nat}
+    (hm : (k, v) ∈ reg) : reg.lookup k = some v := by
+  induction reg with
+  | nil => cases hm
+  | cons q l ih =>
+    obtain ⟨a, b⟩ := q
+    simp only [List.map_cons, List.nodup_cons] at hnd
+    rcases List.mem_cons.mp hm with he | hm'
+    · cases he; simp [List.lookup]
+    · have hne : k ≠ a := by
+        intro e; subst e
+        exact hnd.1 (List.mem_map.mpr ⟨(k, v), hm', rfl⟩)
+      have : (k == a) = false := by simp [hne]
+      simp only [List.lookup, this]
+      exact ih hnd.2 hm'
+
+/-- a solo pass over the keys `ks`: the target scope `sid0` (closed, `x0` at the start) is registered only under
+keys still to be visited, and under at least one of them unless it has been reported already; a scope registered
+under several keys (its identity and raw aliases) is visited once per key, each visit removing that key's entry -/
+theorem pass_run {t sid0 : Nat} {x0 : ScopeS} (hc0 : x0.closed = true) :
+    ∀ (ks : List Nat) (s : State) (v : List Nat), Inv san s → Solo s t v → ks.Nodup → (∀ k ∈ ks, k ∉ v) →
       (∀ k ∈ ks, (lookup s k).isSome = true) →
-      ((k0 ∈ ks ∧ lookup s k0 = some sid0 ∧ scopeOf s sid0 = some x0) ∨ Collected s sid0 x0) →
-      ∃ s', run s (passEvs t s ks) = some s' ∧ (∀ t', pcOf s' t' = .idle) ∧ s'.readers = []
+      (∀ k', (k', sid0) ∈ s.reg → k' ∈ ks) →
+      ((scopeOf s sid0 = some x0 ∧ ∃ k0, k0 ∈ ks ∧ lookup s k0 = some sid0) ∨ Reported s sid0 x0) →
+      ∃ s', run san s (passEvs san t s ks) = some s' ∧ (∀ t', pcOf s' t' = .idle) ∧ s'.readers = []
         ∧ Collected s' sid0 x0 := by
   intro ks
   induction ks with
   | nil =>
-    intro s v _ hs _ _ _ htgt
+    intro s v _ hs _ _ _ hent htgt
     have hdone : Collected s sid0 x0 := by
-      rcases htgt with ⟨hm, _⟩ | hd
+      rcases htgt with ⟨_, k0, hm, _⟩ | ⟨⟨x', hx', hcl, _⟩, hd⟩
       · cases hm
-      · exact hd
-    have hst : step s (.passEndHint t) = some (setPc (delReader s t) t .idle) := by
+      · refine ⟨⟨x', hx', hcl⟩, ?_, hd⟩
+        intro k' hm
+        have := hent k' hm
+        cases this
+    have hst : step san s (.passEndHint t) = some (setPc (delReader s t) t .idle) := by
       simp [step, hs.pc]
     refine ⟨setPc (delReader s t) t .idle, by simp only [passEvs]; rw [run_cons_of_step hst]; rfl, ?_, ?_, hdone⟩
     · intro t'
@@ -267,7 +298,7 @@ theorem pass_run {t k0 sid0 : Nat} {x0 : ScopeS} (hc0 : x0.closed = true) :
       · exact others_setPc (s0 := delReader s t) hs.others t' he
     · simp [hs.readers]
   | cons k ks ih =>
-    intro s v h hs hnd hkv hreg htgt
+    intro s v h hs hnd hkv hreg hent htgt
     have hnd' := List.nodup_cons.mp hnd
     obtain ⟨sid, hl⟩ := Option.isSome_iff_exists.mp (hreg k (List.mem_cons_self ..))
     obtain ⟨x, hx, hxi⟩ := h.static.regIdent k sid (mem_of_lookup hl)
@@ -282,47 +313,55 @@ theorem pass_run {t k0 sid0 : Nat} {x0 : ScopeS} (hc0 : x0.closed = true) :
     have hlk : ∀ k', k' ≠ k → lookup s' k' = lookup s k' := by
       intro k' hne
       simp only [lookup, hrg]; exact lookup_regAfter_other _ _ _ _ _ hne
-    have htgt' : (k0 ∈ ks ∧ lookup s' k0 = some sid0 ∧ scopeOf s' sid0 = some x0) ∨ Collected s' sid0 x0 := by
-      rcases htgt with ⟨hm, hl0, hx0⟩ | ⟨⟨x1, hx1, hcl1⟩, hnr, hdv⟩
-      · by_cases hk0 : k0 = k
-        · have hsid : sid0 = sid := by
-            rw [hk0, hl] at hl0; exact (Option.some.inj hl0).symm
-          have hxx : x0 = x := by
-            rw [hsid, hx'] at hx0; exact (Option.some.inj hx0).symm
-          have hc : x.closed = true := hxx ▸ hc0
-          rw [hsid, hxx]
-          right
-          refine ⟨⟨visitedScope x, ?_, by simp [visitedScope, hc]⟩, ?_, ?_⟩
-          · simp [scopeOf, hsc, hlt]
-          · intro k' hm'
-            rw [hrg] at hm'
-            simp only [regAfterVisit, hc, if_true] at hm'
-            obtain ⟨hm1, hm2⟩ := List.mem_filter.mp hm'
-            obtain ⟨x2, hx2, hi2⟩ := h.static.regIdent k' sid hm1
-            rw [hx] at hx2; cases hx2
-            have : k' = k := by rw [← hi2, hxi]
-            subst this
-            simp at hm2
-          · intro tok hm'; rw [hdl]; exact List.mem_append_left _ hm'
+    -- the entries of the target that remain are under keys still to be visited
+    have hent' : ∀ k', (k', sid0) ∈ s'.reg → k' ∈ ks := by
+      intro k' hm'
+      rw [hrg] at hm'
+      have hm0 : (k', sid0) ∈ s.reg := mem_regAfter hm'
+      rcases List.mem_cons.mp (hent k' hm0) with e | hmem
+      · -- k' = k: then sid = sid0 (keys are unique) and the visit has removed this entry
+        exfalso
+        subst e
+        have hl0 := lookup_of_mem_nodup h.static.regNodup hm0
+        have hsid : sid0 = sid := by
+          have : s.reg.lookup k' = some sid := hl
+          rw [this] at hl0; exact (Option.some.inj hl0).symm
+        subst hsid
+        rcases htgt with ⟨hx0, _⟩ | ⟨⟨x1, hx1, _, hc1⟩, _⟩
+        · rw [hx'] at hx0; cases hx0
+          simp [regAfterVisit, hc0] at hm'
+        · rw [hx'] at hx1; cases hx1
+          simp [regAfterVisit, hc1] at hm'
+      · exact hmem
+    have htgt' : (scopeOf s' sid0 = some x0 ∧ ∃ k0, k0 ∈ ks ∧ lookup s' k0 = some sid0) ∨ Reported s' sid0 x0 := by
+      by_cases hsid : sid0 = sid
+      · -- this visit reports (or reports again) and clears the target
+        right
+        subst hsid
+        have hc : x.closed = true := by
+          rcases htgt with ⟨hx0, _⟩ | ⟨⟨x1, hx1, _, hc1⟩, _⟩
+          · rw [hx'] at hx0; cases hx0; exact hc0
+          · rw [hx'] at hx1; cases hx1; exact hc1
+        refine ⟨⟨visitedScope x, ?_, by simp [visitedScope, hc], by simp [visitedScope, hc]⟩, ?_⟩
+        · simp [scopeOf, hsc, hlt]
+        · intro tok hm'
+          rw [hdl]
+          rcases htgt with ⟨hx0, _⟩ | ⟨_, hd⟩
+          · rw [hx'] at hx0; cases hx0; exact List.mem_append_left _ hm'
+          · exact List.mem_append_right _ (hd tok hm')
+      · rcases htgt with ⟨hx0, k0, hm, hl0⟩ | ⟨⟨x1, hx1, hcl1, hc1⟩, hd⟩
         · left
+          have hk0 : k0 ≠ k := by
+            intro e; subst e
+            rw [hl] at hl0; exact hsid (Option.some.inj hl0).symm
           have hm' : k0 ∈ ks := by
             rcases List.mem_cons.mp hm with e | hm'
             · exact absurd e hk0
             · exact hm'
-          have hne : sid0 ≠ sid := by
-            intro e; subst e
-            rw [hx'] at hx0; cases hx0
-            obtain ⟨x2, hx2, hi2⟩ := h.static.regIdent k0 sid0 (mem_of_lookup hl0)
-            rw [hx] at hx2; cases hx2
-            exact hk0 (by rw [← hi2, hxi])
-          exact ⟨hm', by rw [hlk k0 hk0]; exact hl0, by rw [hother sid0 hne]; exact hx0⟩
-      · right
-        have hne : sid0 ≠ sid := by
-          intro e; subst e
-          exact hnr k (mem_of_lookup hl)
-        refine ⟨⟨x1, by rw [hother sid0 hne]; exact hx1, hcl1⟩, ?_, ?_⟩
-        · intro k' hm'; rw [hrg] at hm'; exact hnr k' (mem_regAfter hm')
-        · intro tok hm'; rw [hdl]; exact List.mem_append_right _ (hdv tok hm')
+          exact ⟨by rw [hother sid0 hsid]; exact hx0, k0, hm', by rw [hlk k0 hk0]; exact hl0⟩
+        · right
+          exact ⟨⟨x1, by rw [hother sid0 hsid]; exact hx1, hcl1, hc1⟩,
+            fun tok hm' => by rw [hdl]; exact List.mem_append_right _ (hd tok hm')⟩
     obtain ⟨s'', hrun', hidle, hrd, hcol⟩ := ih s' (k :: v) h' hsolo hnd'.2
       (by
         intro k' hk' hm
@@ -333,7 +372,7 @@ theorem pass_run {t k0 sid0 : Nat} {x0 : ScopeS} (hc0 : x0.closed = true) :
         intro k' hk'
         have hne : k' ≠ k := by intro e; subst e; exact hnd'.1 hk'
         rw [hlk k' hne]; exact hreg k' (List.mem_cons_of_mem _ hk'))
-      htgt'
+      hent' htgt'
     refine ⟨s'', ?_, hidle, hrd, hcol⟩
     simp only [passEvs]
     rw [run_append hrun, hrun]
@@ -373,20 +412,20 @@ theorem nodup_dedupKeys (l : List Nat) : (dedupKeys l).Nodup := by
 def regKeys (s : State) : List Nat := dedupKeys (s.reg.map (·.1))
 
 /-- one complete solo report pass by thread `t`: take the read lock, visit every registered key, end -/
-def soloPass (s : State) (t : Nat) : List Ev :=
-  .passBegin t :: passEvs t (setPc (addReader s t) t (.passIter [])) (regKeys s)
+def soloPass (san : Nat → Nat) (s : State) (t : Nat) : List Ev :=
+  .passBegin t :: passEvs san t (setPc (addReader s t) t (.passIter [])) (regKeys s)
 
-theorem soloPass_collects {s : State} (h : Inv s) (hidle : ∀ t, pcOf s t = .idle) (hrd : s.readers = [])
+theorem soloPass_collects {s : State} (h : Inv san s) (hidle : ∀ t, pcOf s t = .idle) (hrd : s.readers = [])
     (t : Nat) {k sid : Nat} {x : ScopeS} (hl : lookup s k = some sid) (hx : scopeOf s sid = some x)
     (hc : x.closed = true) :
-    ∃ s', run s (soloPass s t) = some s' ∧ (∀ t', pcOf s' t' = .idle) ∧ s'.readers = []
+    ∃ s', run san s (soloPass san s t) = some s' ∧ (∀ t', pcOf s' t' = .idle) ∧ s'.readers = []
       ∧ Collected s' sid x := by
-  have hst : step s (.passBegin t) = some (setPc (addReader s t) t (.passIter [])) := by
+  have hst : step san s (.passBegin t) = some (setPc (addReader s t) t (.passIter [])) := by
     simp [step, hidle t]
   have h1 := inv_step h hst
   have hsolo : Solo (setPc (addReader s t) t (.passIter [])) t [] :=
     ⟨pcOf_setPc_self .., by simp [hrd], others_setPc (s0 := addReader s t) (fun t' _ => hidle t')⟩
-  obtain ⟨s', hrun, hi, hr, hcol⟩ := pass_run (t := t) (k0 := k) (sid0 := sid) (x0 := x) hc (regKeys s) _ []
+  obtain ⟨s', hrun, hi, hr, hcol⟩ := pass_run (t := t) (sid0 := sid) (x0 := x) hc (regKeys s) _ []
     h1 hsolo (nodup_dedupKeys _) (fun _ _ hm => by cases hm)
     (by
       intro k' hk'
@@ -395,7 +434,8 @@ theorem soloPass_collects {s : State} (h : Inv s) (hidle : ∀ t, pcOf s t = .id
       cases hl' : s.reg.lookup a with
       | none => exact absurd hm (lookup_none_iff.mp hl' b)
       | some w => simp [lookup, hl'])
-    (Or.inl ⟨mem_dedupKeys.mpr (List.mem_map.mpr ⟨(k, sid), mem_of_lookup hl, rfl⟩), hl, hx⟩)
+    (fun k' hm' => mem_dedupKeys.mpr (List.mem_map.mpr ⟨(k', sid), hm', rfl⟩))
+    (Or.inl ⟨hx, k, mem_dedupKeys.mpr (List.mem_map.mpr ⟨(k, sid), mem_of_lookup hl, rfl⟩), hl⟩)
   exact ⟨s', by unfold soloPass; rw [run_cons_of_step hst]; exact hrun, hi, hr, hcol⟩
 
 /-- all threads idle, as a checkable condition on the pc table -/
